@@ -464,6 +464,7 @@ func (g *gen) directedPrims() {
 	g.judgeRead(ropBytesSize(serializer.SeriLengthPrefixTypeAsUint32), "plain", d02a, "directed-D02c")
 	g.judgeRead(ropObjectSize(serializer.SeriLengthPrefixTypeAsUint64, cbKind{kind: 0}), "plain", []byte{0, 0, 0, 0, 0, 0, 0, 0x80, 1}, "directed-D02c")
 	g.judgeRead(ropBytes(1<<62), "onebyte", []byte{1, 2, 3}, "directed-D02c")
+	g.directedHeaders()
 	g.directedThreshold()
 	// D02d (known finding): zero-size items iterate prefix-many times. Go side only (the record of 65535 items is capped).
 	{
